@@ -1,4 +1,6 @@
-// object with reset(): /c09/hb (id 0) touches it every beat so that it leaves the "reset state" again
+// objects with reset(): three clones; /c09/hb (id 0) touches them every beat so that they leave the "reset state" again
 #include "/c09/c09.h"
+int id = -1;
+void set_id(int i) { id = i; }
 void touch() { }
-void reset() { T("reset"); L("reset"); }
+void reset() { if (id < 0) return; L("reset " + id); TP("reset", id); }
